@@ -218,7 +218,9 @@ func features() []feature {
 		simple("getter:named-func", func(s *cfg.Service, c *cfg.Config, k int) {
 			s.Ctor, s.Value, s.Getter, s.Type = nil, sp("fx/lib.FnVal"), gt(k), sp("fx/lib.Fn")
 		}),
-		simple("must_getter:true", func(s *cfg.Service, c *cfg.Config, k int) { s.Getter, s.Must, s.Type = gt(k), bp(true), sp("*fx/lib.Obj") }),
+		simple("must_getter:true", func(s *cfg.Service, c *cfg.Config, k int) {
+			s.Getter, s.Must, s.Type = gt(k), bp(true), sp("*fx/lib.Obj")
+		}),
 		simple("must_getter:true-struct", func(s *cfg.Service, c *cfg.Config, k int) {
 			s.Ctor, s.Getter, s.Must, s.Type = sp("fx/lib.NewVal"), gt(k), bp(true), sp("fx/lib.Val")
 		}),
